@@ -57,6 +57,7 @@ struct State {
     SchedParams sp;
     simrt::Rng rng;
     uint64_t countdown = 0;
+    unsigned sync_preempts = 0;      // preemptions placed at synchronisation points in this run
     size_t next_switch = 0;
     Switch rec[4096]; size_t nrec = 0;
     RunStats stats;
@@ -158,8 +159,24 @@ Sync *sync_of(const void *addr) {
     }
     return &G.sync[h];
 }
-void sync_acquire(const void *addr) { if (!G.active || !self) return; G.stats.sync_ops++; vc_join(self->vc, sync_of(addr)->vc); }
-void sync_release(const void *addr) { if (!G.active || !self) return; G.stats.sync_ops++; Sync *s = sync_of(addr); vc_join(s->vc, self->vc); self->vc[self->tid]++; }
+// Where code synchronises is where it communicates: an atomic load or store, a lock taken or released, a guarded initialisation.  The windows
+// that matter for *logically* wrong but race-free shared state (check-then-act, a value read twice) open and close at exactly these points, and
+// they are a few events wide - uniform preemption almost never lands inside.  In seeded mode up to eight times per run, with probability 1/3, the
+// running thread is preempted right at such a point and another runnable thread takes over.  The unchanged headers contain no such point.
+void sync_point() {
+    Thr *me = self;
+    if (G.sp.mode != 0 || !me || !me->in_op || G.sync_preempts >= 8 || G.rng.below(3)) return;
+    int cands[MAXT], n = 0;
+    for (int k = 1; k <= G.nthreads; k++) if (k != me->tid && G.t[k].started && !G.t[k].finished && !G.t[k].blocked) cands[n++] = k;
+    if (!n) return;
+    int to = cands[G.rng.below((uint32_t)n)];
+    ++G.sync_preempts; G.stats.preemptions++;
+    record_switch(to);
+    pass_baton(to);
+    if (me->in_op) note_overlap(me->cur_kind);
+}
+void sync_acquire(const void *addr) { if (!G.active || !self) return; G.stats.sync_ops++; vc_join(self->vc, sync_of(addr)->vc); sync_point(); }
+void sync_release(const void *addr) { if (!G.active || !self) return; G.stats.sync_ops++; Sync *s = sync_of(addr); vc_join(s->vc, self->vc); self->vc[self->tid]++; sync_point(); }
 
 // ------------------------------------------------------------------ shadow memory and the race check
 inline size_t sh_hash(uint64_t key) { return (size_t)((key * 0x9E3779B97F4A7C15ull) >> (64 - SH_BITS)); }
@@ -264,7 +281,7 @@ void rt_begin_run(int nthreads, const SchedParams &sp) {
     ++G.epoch; if (G.epoch == 0) { std::memset(G.shadow, 0, SH_SIZE * sizeof(Cell)); G.epoch = 1; }
     G.shadow_used = 0; G.nthreads = nthreads; G.event = 0; G.sp = sp; G.rng.seed(sp.seed);
     G.countdown = sp.mean_gap ? 1 + G.rng.below(2 * sp.mean_gap) : 0;
-    G.next_switch = 0; G.nrec = 0; G.stats = RunStats(); G.race = RaceReport(); G.window_state = 0;
+    G.sync_preempts = 0; G.next_switch = 0; G.nrec = 0; G.stats = RunStats(); G.race = RaceReport(); G.window_state = 0;
     for (int i = 0; i < MAXT; i++) {
         Thr &x = G.t[i];
         x.tid = i; x.started = x.finished = x.blocked = x.in_op = false; x.cur_op = -1; x.cur_kind = 0; x.steps = 0;
